@@ -317,9 +317,28 @@ def roundtrip(res, ci, handler_thumb, tier):
         hmode = mid[ix["cpsr"]] & 0x1F
         vec = mid[ix["R.PC"]]
         word = (RETURNS_THUMB if handler_thumb else RETURNS_ARM)[kind]
-        machine.put_instr(cpu, vec, word, bool(handler_thumb), 32)
-        out2 = machine.step(cpu)
-        res.transitions += 2
+        style = "subs"
+        if not handler_thumb and hmode != mode and hmode not in (MON, HYP) and (res.cases % 3) != 0:
+            # the other standard ARM-state return sequences: stacked return with LDM ^ and SRS / RFE
+            off = {"svc": 0, "undef": 0, "smc": 0, "irq": 4, "fiq": 4, "dabort": 8, "dabort-align": 8}[kind]
+            style = "ldm^" if res.cases % 3 == 1 else "srs/rfe"
+            seq = [0xE24EE000 | off]                                   # SUB lr, lr, #off
+            if style == "ldm^":
+                seq += [0xE92D4001, 0xE8FD8001]                        # STMFD sp!,{r0,lr} ; LDMFD sp!,{r0,pc}^
+            else:
+                seq += [0xF96D0500 | hmode, 0xF8BD0A00]                # SRSDB sp!,#<mode> ; RFEIA sp!
+            cpu.registers.set_rmode(13, hmode, 0x10F00)               # the handler's own stack (banked: invisible)
+            for k, w in enumerate(seq):
+                machine.put_instr(cpu, (vec + 4 * k) & 0xFFFFFFFF, w, False, 32)
+            out2 = ("ok",)
+            for k in range(len(seq)):
+                if out2[0] == "ok":
+                    out2 = machine.step(cpu)
+            res.transitions += 1 + len(seq)
+        else:
+            machine.put_instr(cpu, vec, word, bool(handler_thumb), 32)
+            out2 = machine.step(cpu)
+            res.transitions += 2
         post = plan.regs()
         rp = {"config": name, "kind": kind, "mode": mode, "T": T, "it": it, "aif": aif, "ns": ns, "pc": pc,
               "handler_thumb": handler_thumb}
@@ -338,11 +357,13 @@ def roundtrip(res, ci, handler_thumb, tier):
             st.it_advance()
             exp[ix["cpsr"]] = st.cpsr
         ignore = {phys(14, hmode), rstate_spsr(hmode)}
+        if style != "subs":
+            ignore.add(phys(13, hmode))
         if kind == "smc" or hmode == MON or mode == MON:
             ignore.add("scr")
         d = [(n, a, b) for n, a, b in zip(names, exp, post) if a != b and n not in ignore]
         if d:
-            res.fail("roundtrip %s %s" % (kind, "resume-PC" if d[0][0] == "R.PC" else d[0][0].split("[")[0]),
+            res.fail("roundtrip %s (%s) %s" % (kind, style, "resume-PC" if d[0][0] == "R.PC" else d[0][0].split("[")[0]),
                      "config=%s from %s T=%d it=%#x aif=%d ns=%d pc=%#x handler=%s: interrupted->after return: %s" % (
                          name, machine.MODE_NAMES[mode], T, it, aif, ns, pc, "thumb" if handler_thumb else "arm",
                          machine.fmt_diff(d)), rp)
